@@ -31,6 +31,7 @@ struct SImg {
   int kw = 1, kh = 1, kbx = 0, kby = 0;
   uint64_t kseed = 0;
   int kneg = 0;                // allow negative taps
+  int ksum = 100;              // the kernel's coefficients sum to ksum/100 (1.0 for a normalised kernel)
   int repeat = 0;
   int has_clip = 0;
   Boxes clip;
@@ -56,6 +57,7 @@ struct SImg {
     a.f("kby", kby);
     a.f("kseed", kseed);
     a.f("kneg", kneg);
+    a.f("ksum", ksum);
     a.f("repeat", repeat);
     a.f("has_clip", has_clip);
     a.f("clip", clip);
@@ -173,6 +175,10 @@ inline std::vector<pixman_fixed_t> make_kernel(const SImg &d) {
       acc += t[i];
     }
     t[n / 2] += 65536 - acc;
+    // kernels need not be normalised (a blur whose table was rounded, a kernel that darkens): scale every tap so that the
+    // sum becomes ksum/100; an image without alpha channel read through such a kernel is no longer opaque
+    if (d.ksum > 0 && d.ksum != 100)
+      for (int i = 0; i < n; i++) t[i] = t[i] * d.ksum / 100;
     for (int i = 0; i < n; i++) out.push_back((pixman_fixed_t)t[i]);
   };
   if (d.filter == 2) {
@@ -200,13 +206,20 @@ inline void apply_props(pixman_image_t *im, const SImg &d, BuiltImg &b, bool is_
   case 0: pixman_image_set_filter(im, PIXMAN_FILTER_NEAREST, nullptr, 0); break;
   case 1: pixman_image_set_filter(im, PIXMAN_FILTER_BILINEAR, nullptr, 0); break;
   case 2:
+  case 3: {
     b.params = make_kernel(d);
-    pixman_image_set_filter(im, PIXMAN_FILTER_CONVOLUTION, b.params.data(), (int)b.params.size());
+    pixman_filter_t f = d.filter == 2 ? PIXMAN_FILTER_CONVOLUTION : PIXMAN_FILTER_SEPARABLE_CONVOLUTION;
+    if (d.kseed & 2) {
+      // half of the images had another kernel of the same shape before (same header and leading coefficients, different
+      // tail): only the last setter call may count
+      std::vector<pixman_fixed_t> decoy = b.params;
+      decoy.back() += 0x2000;
+      if (decoy.size() > 6) decoy[decoy.size() - 2] -= 0x1000;
+      pixman_image_set_filter(im, f, decoy.data(), (int)decoy.size());
+    }
+    pixman_image_set_filter(im, f, b.params.data(), (int)b.params.size());
     break;
-  case 3:
-    b.params = make_kernel(d);
-    pixman_image_set_filter(im, PIXMAN_FILTER_SEPARABLE_CONVOLUTION, b.params.data(), (int)b.params.size());
-    break;
+  }
   case 4: pixman_image_set_filter(im, PIXMAN_FILTER_FAST, nullptr, 0); break;
   case 5: pixman_image_set_filter(im, PIXMAN_FILTER_GOOD, nullptr, 0); break;
   default: pixman_image_set_filter(im, PIXMAN_FILTER_BEST, nullptr, 0); break;
@@ -503,6 +516,7 @@ inline SImg gen_source(const GenOpts &o, int need_w, int need_h, bool is_mask) {
   }
   s.kseed = seed64();
   s.kneg = coin(40);
+  if (coin(20)) s.ksum = (int)R(30, 130);
   if (o.clips && coin(12)) {
     s.has_clip = 1;
     s.clip = gen_clip(s.bits.w, s.bits.h, 3);
@@ -565,6 +579,17 @@ inline Scene gen_scene(const GenOpts &o) {
     sc.my = (int)R(-1, 3);
   }
   return sc;
+}
+
+// For a scale a (16.16) along one axis and a request of n pixels whose source origin is `first`: the image size and the
+// translation t that put every sample a*(first + k + 1/2) + t, k = 0..n-1, together with its bilinear neighbours inside the
+// image ("cover")
+inline void fit_cover(int64_t a, int first, int n, int &size, int64_t &t) {
+  int64_t p0 = a * first + a / 2, p1 = a * (first + n - 1) + a / 2;
+  int64_t lo = std::min(p0, p1), hi = std::max(p0, p1);
+  int64_t margin = 65536 + R(0, 32768);
+  t = margin - lo;
+  size = (int)((hi - lo + 2 * margin + 65535) / 65536) + (int)R(0, 2);
 }
 
 // "plain" profile: requests shaped like the entries of the fast-path tables (common formats, few properties), so that
@@ -654,17 +679,9 @@ inline Scene gen_plain_scene(int maxw, int maxh) {
         if (coin(35)) s.m[4] = -std::llabs(s.m[4]);
         if (coin(15)) s.m[0] = -std::llabs(s.m[0]);
         if (coin(30)) s.m[4] = s.m[4] < 0 ? -pick<int64_t>({131072, 163840, 196608, 262144}) : pick<int64_t>({131072, 163840, 196608});
-        auto fit = [&](int64_t a, int first, int n, int &size, int64_t &t) {
-          // sample positions a*(first + k + 1/2), k = 0..n-1 (16.16), shifted so that they span [1, size-1] source pixels
-          int64_t p0 = a * first + a / 2, p1 = a * (first + n - 1) + a / 2;
-          int64_t lo = std::min(p0, p1), hi = std::max(p0, p1);
-          int64_t margin = 65536 + R(0, 32768);
-          t = margin - lo;
-          size = (int)((hi - lo + 2 * margin + 65535) / 65536) + (int)R(0, 2);
-        };
         int64_t tx, ty;
-        fit(s.m[0], 4, sc.w, s.bits.w, tx);
-        fit(s.m[4], 2, sc.h, s.bits.h, ty);
+        fit_cover(s.m[0], 4, sc.w, s.bits.w, tx);
+        fit_cover(s.m[4], 2, sc.h, s.bits.h, ty);
         s.m[2] = tx;
         s.m[5] = ty;
         if (s.bits.w > 900 || s.bits.h > 60) {
